@@ -3,6 +3,9 @@
 package c18
 
 import (
+	"context"
+	"github.com/DrmagicE/gmqtt"
+	"github.com/DrmagicE/gmqtt/server"
 	"sync"
 	"sync/atomic"
 
@@ -409,7 +412,14 @@ func genCases(r *monitor.Run) []Case {
 
 // Run is the entry point.
 func Run(r *monitor.Run) {
-	b, err := broker.Start(broker.Options{WS: true})
+	// a plugin that takes its time after every message delivered to one of the "noise" subscribers of the neighbours
+	// phase: their write loops are in the middle of something when their connections go away
+	slowNoise := server.Hooks{OnDelivered: func(ctx context.Context, cl server.Client, msg *gmqtt.Message) {
+		if o := cl.ClientOptions(); o != nil && strings.HasPrefix(o.ClientID, "ws-noise-") {
+			time.Sleep(time.Millisecond)
+		}
+	}}
+	b, err := broker.Start(broker.Options{WS: true, Hooks: slowNoise})
 	if err != nil {
 		r.Inconclusive(err.Error())
 		return
@@ -483,7 +493,21 @@ func neighbours(r *monitor.Run, b *broker.Broker, cs []Case) {
 	defer yield.Observe(nil)
 	stop := make(chan struct{})
 	var wg sync.WaitGroup
-	var refused int64
+	var refused, dropped int64
+	wg.Add(1)
+	go func() { // the flood for the subscribers that drop out
+		defer wg.Done()
+		payload := strings.Repeat("n", 300)
+		for {
+			select {
+			case <-stop:
+				return
+			default:
+			}
+			b.Publish("noise/x", payload, 0, false)
+			time.Sleep(50 * time.Microsecond)
+		}
+	}()
 	for g := 0; g < 6; g++ {
 		wg.Add(1)
 		go func(g int) {
@@ -497,6 +521,19 @@ func neighbours(r *monitor.Run, b *broker.Broker, cs []Case) {
 				ws, err := wire.DialWS(b.WSAddr)
 				if err != nil {
 					time.Sleep(time.Millisecond)
+					continue
+				}
+				if (i+g)%4 == 3 {
+					// a client in good standing that receives a flood and drops its connection in the middle of it:
+					// the broker still has packets to write for it when its read side ends
+					cid := fmt.Sprintf("ws-noise-%d-%d", g, i)
+					cb, _ := mqttx.Encode(&mqttx.Packet{Type: mqttx.CONNECT, Level: 4, ProtoName: "MQTT", ClientID: cid, CleanStart: true}, mqttx.V311)
+					sb, _ := mqttx.Encode(&mqttx.Packet{Type: mqttx.SUBSCRIBE, PacketID: 1, Subs: []mqttx.Sub{{Filter: "noise/#", QoS: 0}}}, mqttx.V311)
+					_ = ws.Conn.SetWriteDeadline(time.Now().Add(2 * time.Second))
+					_ = ws.Conn.WriteMessage(websocket.BinaryMessage, append(cb, sb...))
+					time.Sleep(time.Duration(2+i%5) * time.Millisecond)
+					ws.Close()
+					atomic.AddInt64(&dropped, 1)
 					continue
 				}
 				var first []byte
@@ -547,6 +584,7 @@ func neighbours(r *monitor.Run, b *broker.Broker, cs []Case) {
 	close(stop)
 	wg.Wait()
 	r.Count("refused_neighbour_connections", atomic.LoadInt64(&refused))
+	r.Count("neighbour_subscribers_dropped_in_a_flood", atomic.LoadInt64(&dropped))
 	r.Count("read_loops_held_after_a_packet", atomic.LoadInt64(&cnt)/3)
 }
 
